@@ -7,6 +7,7 @@ package world
 
 import (
 	"sort"
+	"sync"
 	"time"
 )
 
@@ -133,17 +134,25 @@ func (r *Row) PutArbitrary(m map[string]string) {
 		}
 		r.Arbitrary[k] = v
 	}
-	lastArbitrary = map[string]string{}
+	la := map[string]string{}
 	for k, v := range m {
-		lastArbitrary[k] = v
+		la[k] = v
 	}
+	lastArbMu.Lock()
+	lastArbitrary = la
+	lastArbMu.Unlock()
 }
 
 // lastArbitrary is the map most recently handed to PutArbitrary (whole, unfiltered).
-var lastArbitrary map[string]string
+var (
+	lastArbMu     sync.Mutex
+	lastArbitrary map[string]string
+)
 
 // TakeLastArbitrary returns and clears the side channel.
 func TakeLastArbitrary() map[string]string {
+	lastArbMu.Lock()
+	defer lastArbMu.Unlock()
 	m := lastArbitrary
 	lastArbitrary = nil
 	return m
